@@ -405,7 +405,7 @@ def check(ctx, f, rule='G8', upgrade_site=None, decoder=None):
     ctx.add(rule + '.read-loop-found', 'workspace', loc(reads[0].node) if reads else '', bool(reads),
             'no site polls the framed transport as a Stream: the transport whose read buffer this rule guards was not found')
     ctx.floor(rule, 'sites that touch the framed transport, found and classified (%s)' % ', '.join('%s %d' % kv for kv in sorted(n_cls.items())),
-              len([s for s in sites if s.cls != 'unclassified']), 6)
+              len([s for s in sites if s.cls != 'unclassified']), 5)      # counted: 9 with a TLS back end (default, rustls, gssapi); 5 without (constructor, read loop, send, get_mut, close)
     ctx.note('%s census of the framed transport: %s' % (rule, '; '.join(sorted('%s %s [%s]' % (outer(s.body).rsplit('::', 1)[-1], s.what, s.cls) for s in sites))))
 
     # ---- the socket underneath: read-side calls on the io types only inside the transport enum's own AsyncRead impl
